@@ -103,4 +103,12 @@ def units_for(prop, tier, gdir):
                     units.append(engine.Unit(cn, fn, mc, sp, infos[cn], gen, timeout=to, sym=cfg['sym'], case=case, rangelen=1 if tier == 'quick' else 2))
             if tier == 'thorough' and sp.funcs[fn].opts.get('modular') == 'yes':
                 units.append(engine.Unit(cn, fn, 2, sp, infos[cn], gen, timeout=3600, modular=True))
+    # route U: unbounded-capacity units (cbmc --z3) for the containers that have them; the quick tier runs the
+    # ones that finish in about two minutes, the thorough tier all of them
+    import uroute
+    for cn in notes['containers']:
+        for u in uroute.units_for_container(cn, gen):
+            if tier == 'thorough' or u.short in uroute.QUICK or cn in uroute.QUICK_ALL:
+                u.spec = specs[cn]
+                units.append(u)
     return units, notes
